@@ -101,6 +101,23 @@ Proof.
   intros HK Hwf Hnd Hd w. rewrite observed_adjs_spec_links.
   now apply (edges_are_observed_direct K st thr mode lreads order g).
 Qed.
+
+(* the table the direct pipeline hands to the compressor meets the hypotheses of C01 / C02 / C03_compress_graph_ok *)
+From DBG Require Import Spec.CompressSpec Algo.Compress Proofs.CompressGraphOk Proofs.E2eSym Proofs.E2eTable.
+Local Open Scope nat_scope.
+Theorem direct_table_hyps K st thr (lreads : list lread) order T :
+  4 <= K -> Forall (fun r => wf_dna (fst r)) lreads -> NoDup order ->
+  table_of K st thr (if (1 <? thr)%N then 1%N else 0%N) (whole_reads lreads) order = Some T ->
+  tbl_ok pay K st T /\ CompressSpec.exts_sym pay st T /\ exts_sym_pal pay st T /\ exts_closed pay st T.
+Proof.
+  intros HK Hwf Hnd ET. pose proof (table_of_spec K st thr lreads order T HK Hwf Hnd ET) as HT.
+  assert (HK1 : 1 <= K) by lia.
+  pose proof (spec_tbl_ok K st thr lreads T Hwf HT) as Hok.
+  pose proof (spec_links_ok K st thr lreads T HK1 Hwf HT) as HL.
+  split; [exact Hok|]. split; [exact (links_exts_sym pay K st HK1 T _ Hok HL)|].
+  split; [exact (links_exts_sym_pal pay K st HK1 T _ Hok HL) | exact (links_exts_closed pay K st T _ Hok HL)].
+Qed.
+Print Assumptions direct_table_hyps.
 Print Assumptions sharded_eq_direct_partial2.
 Print Assumptions graph_rc_invariant_direct_total.
 Print Assumptions edges_are_observed_direct'.
